@@ -49,16 +49,17 @@ func DrawQCtx(t *rapid.T, w Window) QCtx {
 
 // Profile weights the grammar.
 type Profile struct {
-	MaxDepth  int
-	NoAt      bool
+	MaxDepth   int
+	NoAt       bool
 	NoStartEnd bool // no @ start()/end()
-	NoOffset  bool
-	NoRangeFn bool
-	NoAgg     bool
-	NoBinary  bool
-	NoFunc    bool
-	NoHist    bool
+	NoOffset   bool
+	NoRangeFn  bool
+	NoAgg      bool
+	NoBinary   bool
+	NoFunc     bool
+	NoHist     bool
 	NoScalarFn bool // no scalar()/time()-style varying scalars
+	Nameless   bool // also draw selectors without a metric name
 	// Focus makes the top-level production one of a family: "", "selector", "rangefn", "agg", "binary", "func".
 	Focus string
 	// Metrics available in the dataset (default metricNames).
@@ -122,6 +123,9 @@ func (g *G) matchers() string {
 }
 
 func (g *G) selectorCore() string {
+	if g.p.Nameless && chance(g.t, 1, 3, "nameless") {
+		return pick(g.t, []string{`{a=~".+"}`, `{b="2"}`, `{__name__=~"m|n"}`, `{a="1",c!=""}`, `{__name__=~".+",b!="1"}`}, "namelesssel")
+	}
 	name := pick(g.t, g.p.Metrics, "selmetric")
 	m := g.matchers()
 	if m == "" {
